@@ -63,13 +63,15 @@ def _case(i):
             diff, info = T.compare(mode, prog, stdin, proc, recs, lim)
             res['hist']['steps_compared_' + mode] = info.get('steps_compared', 0)
             res['hist']['chunks_' + mode] = info.get('chunks', 0)
+            if info.get('aborted'):
+                res['items'].append(('i', 'trace %s %s: %s' % (mode, res['key'], info['aborted'])))
             if diff is not None:
                 res['items'].append(('v', 'T%s:%s' % (mode, res['key']),
                                      'trace diverges from the language definition', dict(base, divergence=diff)))
                 return res      # one witness per case is enough; a diverging run may not terminate
-        obs = P.run_interp(C.HYEONG, path, 0, sb)
+        obs = P.run_interp(C.HYEONG, path, 0, sb, hint=(re_, rend))
         if obs.kind == 'cpu':
-            obs = P.run_interp(C.HYEONG, path, 0, sb, cpu=30)
+            obs = P.run_interp(C.HYEONG, path, 0, sb, cpu=30, hint=(re_, rend))
         d = P.compare_to_ref(obs, ro, re_, rend, lenient_encerr=False)
         if d is not None:
             if d.startswith('INCONCLUSIVE'):
